@@ -169,6 +169,42 @@ def gen() -> None:
     if got != want:
         raise px.Unsupported("get_content_length body changed:\n" + got)
 
+    # statement skeletons of the request-side code the environ-record model and the harness oracles stand for
+    # (the header parsers, _plain_int and the typed header classes are pinned by tools/pins/c06_codecs.txt, cookies by c13_cookies.txt,
+    #  Accept matching by the C17 translator)
+    impl = c06mod.impl_def
+    sk = ["## http.parse_accept_header\n" + px.skeleton(impl(http, "parse_accept_header"))]
+    for name in ("get_host", "get_current_url", "get_content_length"):
+        sk.append(f"## sansio.utils.{name}\n" + px.skeleton(impl(sutils, name)))
+    for name in ("args", "access_route", "full_path", "url", "base_url", "root_url", "host_url", "host", "cookies", "content_length", "_parse_content_type",
+                 "mimetype", "mimetype_params", "pragma", "accept_mimetypes", "accept_charsets", "accept_encodings", "accept_languages", "cache_control",
+                 "if_match", "if_none_match", "if_modified_since", "if_unmodified_since", "if_range", "range", "user_agent", "authorization", "is_json", "__init__"):
+        sk.append(f"## sansio.request.Request.{name}\n" + px.skeleton(impl(rq, name)))
+    props = []
+    for node in rq.body:
+        val = node.value if isinstance(node, (ast.Assign, ast.AnnAssign)) else None
+        if isinstance(val, ast.Call) and "header_property" in ast.unparse(val.func):
+            tgt = ast.unparse(node.targets[0] if isinstance(node, ast.Assign) else node.target)
+            args_ = [ast.unparse(a) for a in val.args] + [f"{k.arg}={ast.unparse(k.value)}" for k in val.keywords if k.arg != "doc"]
+            props.append(f"{tgt} = header_property({', '.join(args_)})")
+    sk.append("## sansio.request.Request header_property attributes (doc omitted)\n" + "\n".join(props))
+    wreq = px.find_class(px.load("wrappers/request.py"), "Request")
+    for name in ("__init__", "want_form_data_parsed", "make_form_data_parser", "_load_form_data", "_get_stream_for_parsing", "stream", "data", "get_data",
+                 "form", "values", "files", "script_root", "url_root", "json", "get_json", "on_json_loading_failed"):
+        sk.append(f"## wrappers.request.Request.{name}\n" + px.skeleton(impl(wreq, name)))
+    urls_m = px.load("urls.py")
+    for name in ("uri_to_iri", "_decode_idna", "_codec_error_url_quote", "_make_unquote_part"):
+        sk.append(f"## urls.{name}\n" + px.skeleton(impl(urls_m, name)))
+    sk.append("## wsgi._get_server\n" + px.skeleton(impl(px.load("wsgi.py"), "_get_server")))
+    internal_m = px.load("_internal.py")
+    dap = px.find_class(internal_m, "_DictAccessorProperty")
+    sk.append("## _internal._DictAccessorProperty.__get__\n" + px.skeleton(impl(dap, "__get__")))
+    sk.append("## _internal._wsgi_decoding_dance\n" + px.skeleton(impl(internal_m, "_wsgi_decoding_dance")))
+    utils_m = px.load("utils.py")
+    for cname in ("header_property", "environ_property"):
+        sk.append(f"## utils.{cname}\n" + px.skeleton(px.find_class(utils_m, cname)))
+    px.check_pin("C07", "c07_request.txt", "\n".join(sk) + "\n", "statement skeleton of the request-side code")
+
     def codes(s):
         return px.coq_string_codes(s)
     text = px.HEADER.format(tool="c07.py", src="http.py, datastructures/auth.py, sansio/request.py, sansio/utils.py")
@@ -795,6 +831,11 @@ def main(chk: Check) -> None:
         "the C06 parser models and the C13 cookie model (validated differentially here on hostile input)",
         "hand-written model of binascii.a2b_base64 (non-strict) and of urlsplit's netloc / port for bracket-free Latin-1 hosts, validated differentially against CPython",
         "harness only (no model): email.utils date parsing, float(), Accept matching and codecs.lookup, idna codec, ipaddress / NFKC checks in urlsplit, form and multipart parsing, json",
+        "statement pins tools/pins/c07_request.txt (59 skeletons: parse_accept_header, sansio.utils get_host / get_current_url / get_content_length, the sansio and WSGI Request "
+        "attribute bodies and header_property table, uri_to_iri / _decode_idna, _get_server, _DictAccessorProperty.__get__, header_property / environ_property) on top of c06_codecs.txt and c13_cookies.txt",
+        "validated differentially only, no pin here: CPython library code (urllib.parse urlsplit / parse_qsl / quote / unquote, base64, email.utils, codecs idna, ipaddress, unicodedata, json, re); "
+        "werkzeug code pinned by its own property: EnvironHeaders / MultiDict / ImmutableList glue (C08 pins), formparser / multipart / get_input_stream / LimitedStream (C01, C02, C09, C10 pins), "
+        "Accept classes (C17 translator), UserAgent (a plain string holder)",
         "termination of the implementation is observed with a 3 s wall-clock watchdog per call (vlib.with_timeout)",
     ]
     run(chk)
